@@ -120,7 +120,7 @@ class OutstationProp(Prop):
     # (Outstation/Database.v) itself: its input is the ORIGINAL script, its output the whole trace of the
     # implementation including the `op`, `> digest`, `> <answer>`, `> cb ...`, `> txparse` and `end` lines.
     extra_what = "composed outstation model `ofull`: Grammar digest + Session + Database, nothing recorded"
-    OFULL_OPS = {"rx": 4, "sleep": 2, "add": 4, "update": 6, "handler": 3, "appiin": 2, "disconnect": 1}
+    OFULL_OPS = {"rx": 4, "sleep": 2, "add": 4, "update": 6, "handler": 3, "appiin": 2, "disconnect": 1, "bounce": 1}
     OFULL_ADD_TYPES = ("binary", "double", "bos", "counter", "frozen", "analog", "aos", "octet")
     OFULL_UPDATE_TYPES = ("binary", "counter", "analog", "octet")     # what harness/outstation.rs implements
 
@@ -233,7 +233,7 @@ class OutstationProp(Prop):
                 ops.append(("rx", s if s is not None else src, c if c is not None else bc, hexs(b)))
             if focus == "controls" and r < 55 or r < 12:
                 objs = self.rand_controls(rng, many=rng.chance(1, 10))
-                kind = rng.choice(["sbo", "sbo", "sbo-gap", "sbo-late", "sbo-wrongseq", "sbo-diff", "op-only", "direct", "direct_nr", "sbo-repeat", "sbo-retx-op", "sbo-xx", "sbo-fail-retx", "sbo-confirm", "sbo-confirm"])
+                kind = rng.choice(["sbo", "sbo", "sbo-gap", "sbo-late", "sbo-wrongseq", "sbo-diff", "op-only", "direct", "direct_nr", "sbo-repeat", "sbo-retx-op", "sbo-xx", "sbo-fail-retx", "sbo-confirm", "sbo-confirm", "sbo-reconnect", "sbo-reconnect"])
                 if kind.startswith("sbo"):
                     rx(frag(seq, FN["select"], objs), MASTER, "none")
                     if kind == "sbo-gap":
@@ -247,6 +247,10 @@ class OutstationProp(Prop):
                         # stray confirms (solicited / unsolicited, any sequence) between SELECT and OPERATE
                         for _c in range(rng.range(1, 2)):
                             rx(frag(rng.below(16), FN["confirm"], uns=rng.chance(1, 2)), MASTER, "none")
+                    if kind == "sbo-reconnect":
+                        # the session ends between SELECT and OPERATE (link error, or the user disables and re-enables
+                        # the outstation): no select survives into the next session (seeded change C04_c)
+                        ops.append((rng.choice(["disconnect", "bounce", "bounce"]),))
                     if kind == "sbo-xx":
                         # another request and its retransmission between SELECT and OPERATE
                         x = frag(rng.below(16), rng.choice([FN["write"], FN["delay"], FN["disable"]]), b"")
@@ -331,7 +335,7 @@ class OutstationProp(Prop):
                 else:
                     rx(frag(seq, FN["confirm"]), MASTER, "none")
             elif r < 94:
-                ops.append(("disconnect",))
+                ops.append((rng.choice(["disconnect", "disconnect", "bounce"]),))
             elif r < 97:
                 ops.append(("handler", rng.choice([0, 0, 4, 7]), rng.choice([0, 0, 4, 6])))
             else:
@@ -372,7 +376,7 @@ class OutstationProp(Prop):
                 rx(frag(rng.choice([useq, (useq + 1) & 15, (useq - 1) & 15, rng.below(16)]), FN["confirm"], uns=True))
                 useq = (useq + rng.below(2)) & 15
             elif r == 8:
-                ops.append(("disconnect",))
+                ops.append((rng.choice(["disconnect", "disconnect", "bounce"]),))
             elif r == 9:
                 ops.append(("handler", rng.choice([0, 0, 0, 4]), rng.choice([0, 0, 0, 6])))
             else:
@@ -423,3 +427,40 @@ class OutstationProp(Prop):
             if l.startswith("panic") or l.startswith("harness-died") or l == "missing":
                 fails.append(("no-panic", "outstation task panicked or stalled: " + l[:200]))
         return fails
+
+
+# ---- what a READ asked for, by group (direct oracle for "the response answers THIS request") ---------------
+STATIC_GROUPS = {1, 3, 10, 20, 21, 30, 40, 110}
+EVENT_GROUPS = {2, 4, 11, 22, 23, 32, 42, 111}
+
+
+def read_allowed_groups(req):
+    """groups of the objects a response to this READ request may carry (None when the request cannot be walked:
+    only header-only qualifiers 0x06, 0x00/0x01 ranges and 0x07/0x08 counts occur in READ requests)"""
+    allowed = set()
+    i = 2
+    while i < len(req):
+        if i + 3 > len(req): return None
+        g, v, q = req[i], req[i + 1], req[i + 2]
+        i += 3
+        if q == 0x06: pass
+        elif q in (0x00, 0x07): i += 2 if q == 0x00 else 1
+        elif q in (0x01, 0x08): i += 4 if q == 0x01 else 2
+        else: return None
+        if i > len(req): return None
+        if g == 60:
+            allowed |= STATIC_GROUPS if v == 1 else EVENT_GROUPS | {51}
+        else:
+            allowed.add(g)
+            if g in (2, 4): allowed.add(51)
+    return allowed
+
+
+def response_groups(resp):
+    """groups of the objects in a response fragment (None when it cannot be decoded)"""
+    import dbcommon as D
+    try:
+        ev, st = D.decode_response(resp[4:])
+    except Exception:
+        return None
+    return {e[0] for e in ev} | {x[0] for x in st}
